@@ -1,9 +1,9 @@
 package rules
 
 import (
-	"regexp"
 	"fmt"
 	"go/token"
+	"regexp"
 	"sort"
 	"strings"
 
